@@ -28,6 +28,15 @@
                                 AL.Lemmas.MovText.mov_line) which, read as the CPU reads them (AL.Spec.MovImm.movResult, a reader of
                                 its own written from the SDM; it agrees with the reference decoder on an instance of each shape),
                                 leave exactly v (resp. 2^64 − v) in that register.
+   * `alu_r64_hex / alu_r64_neg_hex / alu_r64_dec / alu_r64_neg_dec` — kernel-checked, the cascade of range tests on the immediate: for each
+                                of the eight operations add, or, adc, sbb, and, sub, xor, cmp, each of the 16 64-bit registers, EVERY v
+                                representable at the destination (sign-extends from 32 bits), every option byte and the four spellings,
+                                the TEXT `<op> <reg>, <number>` goes through the whole per-line pipeline of the model symbolically
+                                (AL.Lemmas.Alu.alu_bytes over abstract table rows, aluKeys_classified on the regenerated table,
+                                AL.Lemmas.AluText.alu_line) and comes out as `REX.W 83 /n ib` exactly when v sign-extends from 8 bits,
+                                else `REX.W 81 /n id` (`REX.W 8n+5 id` for rax), which AL.Spec.AluImm.aluRead (a reader of its own written
+                                from the SDM; it agrees with the reference decoder on an instance of each shape) maps back to
+                                (operation, register, v).
 -/
 import AL.Properties.Sweep.C03
 import AL.Lemmas.Numerals
@@ -35,8 +44,10 @@ import AL.Spec.X86Lemmas
 import AL.Lemmas.ImmField
 import AL.Lemmas.MovText
 import AL.Spec.MovImm
+import AL.Lemmas.AluText
+import AL.Spec.AluImm
 namespace AL.Properties.C03
-open AL AL.Impl AL.Gen AL.Lemmas AL.Spec.X86 AL.Lemmas.MovImm AL.Lemmas.MovText
+open AL AL.Impl AL.Gen AL.Lemmas AL.Spec.X86 AL.Lemmas.MovImm AL.Lemmas.MovText AL.Lemmas.Branch AL.Lemmas.Alu AL.Lemmas.AluText AL.Spec.AluImm
 
 /-- **decimal / hexadecimal / leading zeros / negation: the same number** -/
 theorem written_number_value (s : Instr) (n k : Nat) (hn : n < 2 ^ 64) :
@@ -206,5 +217,119 @@ example : (decode [0x41, 0xb9, 5, 0, 0, 0]).map Dec.render = some "mov d9 i32:5 
     AL.Spec.MovImm.movResult [0x41, 0xb9, 5, 0, 0, 0] = some (9, 5) := by decide +kernel
 example : (decode [0x49, 0xbf, 1, 2, 3, 4, 5, 6, 7, 8]).map Dec.render = some "mov q15 i64:578437695752307201 #10" ∧
     AL.Spec.MovImm.movResult [0x49, 0xbf, 1, 2, 3, 4, 5, 6, 7, 8] = some (15, 578437695752307201) := by decide +kernel
+
+/-- the statement for one spelling: the line assembles to code that a CPU reads as operation `/n` on register m with the
+    immediate operand `value` (after the sign extension of the field that the chosen opcode has) -/
+def AluYields (opt : Nat) (line : Str) (n m value : Nat) : Prop :=
+  ∃ bs, (assembleLine opt line).1 = .ok (.code bs) ∧ aluRead bs = some (n, m, value)
+
+/-- the table rows behind the eight mnemonics carry the architecture's `/digit` -/
+theorem aluOps_digits : aluOps.all (fun p => aluNames.any (fun q => q.2 == p.1 && digitOf q.1 == p.2)) = true := by decide +kernel
+
+theorem aluBytes_same (n m v : Nat) (hn : n < 8) (hm : m < 16) : AL.Lemmas.Alu.aluBytes n (8 * n + 4) m v = AL.Spec.AluImm.aluBytes n m v := by
+  unfold AL.Lemmas.Alu.aluBytes AL.Spec.AluImm.aluBytes
+  rw [modrm_eq n hn m hm]
+
+theorem alu_yields_of_tok (mn : Str) (n : Nat) (hop : (mn, n) ∈ aluOps) (m : Nat) (name : Str) (g : Nat) (hp : (m, name, g) ∈ regs64)
+    (c : Nat) (t : Str) (v : Nat) (b : Bool)
+    (hc : numHead c = true) (hall : ∀ x ∈ c :: t, numCh x = true) (hlen : (c :: t).length ≤ 70)
+    (himm : ∀ s : Instr, immTok s (c :: t) = .ok { s with imm := true, narrowOk := b, cons := v })
+    (hd : disp32 v) (opt : Nat) : AluYields opt (mn ++ 32 :: (name ++ 44 :: 32 :: c :: t)) n m v := by
+  have h := aluOps_digits
+  rw [List.all_eq_true] at h
+  have h1 := h (mn, n) hop
+  rw [List.any_eq_true] at h1
+  obtain ⟨⟨key, mn'⟩, hq, hq2⟩ := h1
+  simp only [Bool.and_eq_true, beq_iff_eq] at hq2
+  obtain ⟨rfl, rfl⟩ := hq2
+  obtain ⟨hline, hdig⟩ := alu_line key mn' hq m name g hp c t v b hc hall hlen himm hd opt
+  refine ⟨_, hline, ?_⟩
+  rw [aluBytes_same _ m v hdig (regs64_lt m name g hp)]
+  exact aluRead_aluBytes _ m v hdig (regs64_lt m name g hp) hd
+
+/-- **`<op> r64, v`, hexadecimal with any number k ≤ 50 of leading zeros**: for each of the eight operations
+    (add, or, adc, sbb, and, sub, xor, cmp), each of the 16 registers, EVERY v representable at the destination (a value that
+    sign-extends from 32 bits) and every option byte, the line is accepted and the emitted code, read as the CPU reads it,
+    is that operation on that register with exactly v as its operand: `83 /n ib` when v sign-extends from 8 bits, else
+    `81 /n id` (`<8n+5> id` for rax) -/
+theorem alu_r64_hex (mn : Str) (n : Nat) (hop : (mn, n) ∈ aluOps) (m : Nat) (name : Str) (g : Nat) (hp : (m, name, g) ∈ regs64)
+    (k v : Nat) (hk : k ≤ 50) (hd : disp32 v) (opt : Nat) :
+    AluYields opt (mn ++ str! " " ++ name ++ str! ", 0x" ++ hexDigs k v) n m v := by
+  have hv : v < 2 ^ 64 := by unfold disp32 at hd; omega
+  have hall : ∀ x ∈ 48 :: 120 :: hexDigs k v, numCh x = true := by
+    intro x hx
+    simp only [List.mem_cons] at hx
+    rcases hx with rfl | rfl | hx
+    · decide
+    · decide
+    · exact hexDigs_num k v hv x hx
+  have hl := hexDigs_length k v
+  have := alu_yields_of_tok mn n hop m name g hp 48 (120 :: hexDigs k v) v _ (by decide) hall (by simp only [List.length_cons]; omega)
+    (fun s => immTok_hex s k v hv) hd opt
+  simpa using this
+
+/-- negated hexadecimal: `-0x…` of w is the value 2^64 − w -/
+theorem alu_r64_neg_hex (mn : Str) (n : Nat) (hop : (mn, n) ∈ aluOps) (m : Nat) (name : Str) (g : Nat) (hp : (m, name, g) ∈ regs64)
+    (k w : Nat) (hk : k ≤ 50) (hw : w < 2 ^ 64) (hd : disp32 ((2 ^ 64 - w) % 2 ^ 64)) (opt : Nat) :
+    AluYields opt (mn ++ str! " " ++ name ++ str! ", -0x" ++ hexDigs k w) n m ((2 ^ 64 - w) % 2 ^ 64) := by
+  have hall : ∀ x ∈ 45 :: 48 :: 120 :: hexDigs k w, numCh x = true := by
+    intro x hx
+    simp only [List.mem_cons] at hx
+    rcases hx with rfl | rfl | rfl | hx
+    · decide
+    · decide
+    · decide
+    · exact hexDigs_num k w hw x hx
+  have hl := hexDigs_length k w
+  have := alu_yields_of_tok mn n hop m name g hp 45 (48 :: 120 :: hexDigs k w) ((2 ^ 64 - w) % 2 ^ 64) _ (by decide) hall
+    (by simp only [List.length_cons]; omega) (fun s => immTok_neg_hex s k w hw) hd opt
+  simpa using this
+
+/-- decimal with any number k ≤ 45 of leading zeros -/
+theorem alu_r64_dec (mn : Str) (n : Nat) (hop : (mn, n) ∈ aluOps) (m : Nat) (name : Str) (g : Nat) (hp : (m, name, g) ∈ regs64)
+    (k v : Nat) (hk : k ≤ 45) (hd : disp32 v) (opt : Nat) :
+    AluYields opt (mn ++ str! " " ++ name ++ str! ", " ++ decDigs k v) n m v := by
+  have hv : v < 2 ^ 64 := by unfold disp32 at hd; omega
+  obtain ⟨d, rest, hdd, hds⟩ := decDigs_head k v hv
+  have hall : ∀ x ∈ digitCh d :: rest, numCh x = true := by rw [← hds]; exact decDigs_num k v hv
+  have hl := decDigs_length k v
+  have := alu_yields_of_tok mn n hop m name g hp (digitCh d) rest v true (digitCh_head d hdd) hall (by rw [← hds]; omega)
+    (fun s => by rw [← hds]; exact immTok_dec_pad s k v hv) hd opt
+  rw [← hds] at this
+  simpa using this
+
+/-- negated decimal -/
+theorem alu_r64_neg_dec (mn : Str) (n : Nat) (hop : (mn, n) ∈ aluOps) (m : Nat) (name : Str) (g : Nat) (hp : (m, name, g) ∈ regs64)
+    (k w : Nat) (hk : k ≤ 45) (hw : w < 2 ^ 64) (hd : disp32 ((2 ^ 64 - w) % 2 ^ 64)) (opt : Nat) :
+    AluYields opt (mn ++ str! " " ++ name ++ str! ", -" ++ decDigs k w) n m ((2 ^ 64 - w) % 2 ^ 64) := by
+  have hall : ∀ x ∈ 45 :: decDigs k w, numCh x = true := by
+    intro x hx
+    simp only [List.mem_cons] at hx
+    rcases hx with rfl | hx
+    · decide
+    · exact decDigs_num k w hw x hx
+  have hl := decDigs_length k w
+  have := alu_yields_of_tok mn n hop m name g hp 45 (decDigs k w) ((2 ^ 64 - w) % 2 ^ 64) true (by decide) hall
+    (by simp only [List.length_cons]; omega) (fun s => immTok_neg_dec_pad s k w hw) hd opt
+  simpa using this
+
+/-- the code of a line, if it is accepted -/
+def codeOf (opt : Nat) (t : Str) : Option Bytes :=
+  match (assembleLine opt t).1 with
+  | .ok (.code bs) => some bs
+  | _ => none
+
+/-- not vacuous: `sub r9, -0x80` is `49 83 e9 80`, `cmp rax, 300` is `48 3d 2c 01 00 00`; the mini-reader agrees with the
+    reference decoder on an instance of each shape -/
+example : (str! "sub", 5) ∈ aluOps ∧ (9, str! "r9", 1161) ∈ regs64 := by decide
+example : disp32 ((2 ^ 64 - 0x80) % 2 ^ 64) := by unfold disp32; decide
+example : codeOf 14 (str! "sub r9, -0x80") = some [0x49, 0x83, 0xe9, 0x80] ∧
+    codeOf 14 (str! "cmp rax, 300") = some [0x48, 0x3d, 0x2c, 1, 0, 0] := by decide +kernel
+example : (decode [0x49, 0x83, 0xe9, 0x80]).map Dec.render = some "sub q9 i64:18446744073709551488 #4" ∧
+    aluRead [0x49, 0x83, 0xe9, 0x80] = some (5, 9, 18446744073709551488) := by decide +kernel
+example : (decode [0x48, 0x3d, 0x2c, 1, 0, 0]).map Dec.render = some "cmp q0 i64:300 #6" ∧
+    aluRead [0x48, 0x3d, 0x2c, 1, 0, 0] = some (7, 0, 300) := by decide +kernel
+example : (decode [0x49, 0x81, 0xe9, 0, 0, 0, 0x80]).map Dec.render = some "sub q9 i64:18446744071562067968 #7" ∧
+    aluRead [0x49, 0x81, 0xe9, 0, 0, 0, 0x80] = some (5, 9, 18446744071562067968) := by decide +kernel
 
 end AL.Properties.C03
